@@ -33,7 +33,9 @@
 (***************************************************************************)
 EXTENDS CRat, TLC, FiniteSets
 
-CONSTANTS Cases,     \* set of case records (see below)
+CONSTANTS Cases,     \* function: group key -> set of case records (see below); it is applied one group at a
+                     \* time by the Pick action, so that TLC's workers build the grid in parallel (initial
+                     \* states are computed by a single thread)
           MaxLen     \* number of input samples fed to the time-domain cases
 
 (* A section (LinearFilter):  [b |-> <<rationals>>, a |-> <<rationals>> (a[1] # 0), adv |-> Nat]     *)
@@ -140,10 +142,15 @@ VARIABLES case,    \* the case being run
           ref      \* td: freq_response(w) of the filter, called before filtering
 vars == <<case, k, out, dreg, ref>>
 
-Init == /\ case \in Cases
-        /\ k = 0 /\ out = <<>>
-        /\ dreg = IF case.kind = "td" THEN [j \in 1..Order(case.sec) |-> CZero] ELSE <<>>
-        /\ ref  = IF case.kind = "td" THEN OpSection(case.sec, case.m) ELSE CZero
+Init == /\ case \in {[kind |-> "group", g |-> g] : g \in DOMAIN Cases}
+        /\ k = 0 /\ out = <<>> /\ dreg = <<>> /\ ref = CZero
+
+\* a case of the group is chosen; a time-domain case loads its registers with zero and asks freq_response(w)
+Pick == /\ case.kind = "group"
+        /\ case' \in Cases[case.g]
+        /\ dreg' = IF case'.kind = "td" THEN [j \in 1..Order(case'.sec) |-> CZero] ELSE <<>>
+        /\ ref'  = IF case'.kind = "td" THEN OpSection(case'.sec, case'.m) ELSE CZero
+        /\ UNCHANGED <<k, out>>
 
 \* one more element of the frequency container goes through freq_response
 StepFr == /\ case.kind = "fr" /\ k < Len(case.ms)
@@ -174,7 +181,7 @@ StepDft == /\ case.kind = "dft" /\ k < Len(case.ms)
            /\ k' = k + 1
            /\ UNCHANGED <<case, dreg, ref>>
 
-Next == StepFr \/ StepTd \/ StepDft
+Next == Pick \/ StepFr \/ StepTd \/ StepDft
 Spec == Init /\ [][Next]_vars
 
 ---------------------------------------------------------------------------
